@@ -34,40 +34,7 @@ def check(run):
                                       'sim::asio::high_resolution_timer::wait': 'synchronous wait (unsupported, asserts)'})
     engines.r3_caller_table(run, 'sim::chrono::reset_clock', {'sim::simulation::simulation': 'clock starts at zero for each simulation'})
 
-    run.clause('R5 every fast_forward(a - b) is dominated by a guard establishing a >= b')
-    ncalls = 0
-    for fn, c in fx.callers_of_norm(FF):
-        ncalls += 1
-        run.touch(fn)
-        arg = q.strip_casts(c['args'][0])
-        construct = '%s: fast_forward(%s)' % (fn.norm, q.render(fn, arg))
-        sub = None
-        if is_node(arg) and arg['k'] == 'call' and arg.get('opc') == '-' and len(arg['args']) == 2:
-            sub = (arg['args'][0], arg['args'][1])
-        elif is_node(arg) and arg['k'] == 'bin' and arg['op'] == '-':
-            sub = (arg['lhs'], arg['rhs'])
-        if sub is None:
-            run.unrecognised('R5', 'nonneg-advance', construct, fn.loc(c), 'advance operand is not a difference a - b; cannot decide its sign')
-            continue
-        guards = q.guards_at(fn, c)
-        g = q.establishes_order(fn, guards, sub[0], sub[1], strict=False)
-        if g is None:
-            # callee clamp?
-            if _callee_clamps(fx):
-                run.ok('R5', 'nonneg-advance', construct, fn.loc(c), 'fast_forward itself ignores negative durations (clamp in callee)')
-            else:
-                run.violation('R5', 'nonneg-advance', construct, fn.loc(c),
-                              'no dominating guard establishes %s >= %s: a timer whose expiry is already in the past moves the clock backwards (guards on the path: %s)'
-                              % (q.render(fn, sub[0]), q.render(fn, sub[1]), '; '.join(('' if p else '!') + q.render(fn, a) for a, p in guards) or 'none'))
-            continue
-        # stale guard?
-        gb = fn.cfg.node_block(g)
-        st = q.reassigned_between(fn, q.locals_in(sub[0]) | q.locals_in(sub[1]), gb, c)
-        if st is not None:
-            run.violation('R5', 'nonneg-advance', construct, fn.loc(c), 'guard %s is stale: an operand is reassigned at line %d before the advance' % (q.render(fn, g), st['l']))
-        else:
-            run.ok('R5', 'nonneg-advance', construct, fn.loc(c), 'dominating guard: ' + q.render(fn, g))
-    run.floor('R5', 2)
+    nonneg_advance_rule(run)
 
     run.clause('R4 in simulation::run the message-queue poll precedes the advance in every iteration and the advance target is the front of the timer queue')
     rn = fx.fn1('sim::simulation::run')
@@ -124,6 +91,8 @@ def check(run):
     run.clause('the front of the timer queue is the earliest expiry: sorted insert, and the sort key is never written while the timer is queued (shared with C03)')
     import p03
     p03.sortedness_rules(run)
+    import p12
+    p12.remove_timer_rule(run)
     rs = [c for c in rn.calls() if (c.get('callee') or '').endswith('io_context::restart') and q.render(rn, c.get('obj')) == 'm_service']
     run.check(bool(rs) and bool(polls) and all(any(q.precedes(rn, r, p) and rn.cfg.node_block(r) == rn.cfg.node_block(p) for r in rs) for p in polls), 'R4', 'restart-before-poll', 'sim::simulation::run', rn.loc(),
               'the message queue is not restarted immediately before each poll (a stopped queue polls nothing and the clock runs ahead of ready handlers)', 'm_service.restart() precedes every poll')
@@ -151,6 +120,45 @@ def check(run):
     other = [a for a in q.field_accesses(f) if a.is_write and a.field != 'sim::simulation::m_stopped']
     run.check(not other and not list(f.calls()), 'R2', 'restart-effect', 'sim::simulation::restart', f.loc(),
               'restart() does more than clear the stop flag: %s' % ([a.field for a in other] + [q.callee_name(c) for c in f.calls()]), 'restart only clears the flag (no event or clock state touched)')
+
+
+def nonneg_advance_rule(run):
+    fx = run.fx
+    run.clause('R5 every fast_forward(a - b) is dominated by a guard establishing a >= b')
+    ncalls = 0
+    for fn, c in fx.callers_of_norm(FF):
+        ncalls += 1
+        run.touch(fn)
+        arg = q.strip_casts(c['args'][0])
+        construct = '%s: fast_forward(%s)' % (fn.norm, q.render(fn, arg))
+        sub = None
+        if is_node(arg) and arg['k'] == 'call' and arg.get('opc') == '-' and len(arg['args']) == 2:
+            sub = (arg['args'][0], arg['args'][1])
+        elif is_node(arg) and arg['k'] == 'bin' and arg['op'] == '-':
+            sub = (arg['lhs'], arg['rhs'])
+        if sub is None:
+            run.unrecognised('R5', 'nonneg-advance', construct, fn.loc(c), 'advance operand is not a difference a - b; cannot decide its sign')
+            continue
+        guards = q.guards_at(fn, c)
+        g = q.establishes_order(fn, guards, sub[0], sub[1], strict=False)
+        if g is None:
+            # callee clamp?
+            if _callee_clamps(fx):
+                run.ok('R5', 'nonneg-advance', construct, fn.loc(c), 'fast_forward itself ignores negative durations (clamp in callee)')
+            else:
+                run.violation('R5', 'nonneg-advance', construct, fn.loc(c),
+                              'no dominating guard establishes %s >= %s: a timer whose expiry is already in the past moves the clock backwards (guards on the path: %s)'
+                              % (q.render(fn, sub[0]), q.render(fn, sub[1]), '; '.join(('' if p else '!') + q.render(fn, a) for a, p in guards) or 'none'))
+            continue
+        # stale guard?
+        gb = fn.cfg.node_block(g)
+        st = q.reassigned_between(fn, q.locals_in(sub[0]) | q.locals_in(sub[1]), gb, c)
+        if st is not None:
+            run.violation('R5', 'nonneg-advance', construct, fn.loc(c), 'guard %s is stale: an operand is reassigned at line %d before the advance' % (q.render(fn, g), st['l']))
+        else:
+            run.ok('R5', 'nonneg-advance', construct, fn.loc(c), 'dominating guard: ' + q.render(fn, g))
+    run.floor('R5', 2)
+
 
 
 def _callee_clamps(fx):
